@@ -179,17 +179,17 @@ theorem eval_abs (ρ : Env) (e : Expr) (w : Nat) (hw : 1 ≤ w) (hw' : w ≤ 255
   · rw [trunc_of_lt (by split <;> omega)]
     split <;> omega
 
-theorem eval_maskBits (ρ : Env) (e : Expr) (cnt w : Nat) (hw : w ≤ 255) (hc : cnt ≤ 65535)
+theorem eval_maskBitsRaw (ρ : Env) (e : Expr) (cnt w : Nat) (hw : w ≤ 255) (hc : cnt ≤ 65535)
     (hok : Tools.bitMaskOk cnt w = true) (h1 : w = 1 → cnt < 256) :
-    (Tools.maskBits e cnt w).eval ρ = Spec.mask w (e.eval ρ) cnt := by
+    (Tools.bitAnd e (Tools.bitMaskRaw cnt w) w).eval ρ = Spec.mask w (e.eval ρ) cnt := by
   have hM := M_pos w
   have hx := trunc_lt w (e.eval ρ)
-  simp only [Tools.maskBits, eval_bitAnd, Spec.band, Spec.mask]
+  simp only [eval_bitAnd, Spec.band, Spec.mask]
   rcases Nat.eq_zero_or_pos w with h0 | h0
   · subst h0
     have : trunc 0 (e.eval ρ) = 0 := by simp [trunc, Nat.mod_one]
     simp [this]
-  · simp only [Tools.bitMask]
+  · simp only [Tools.bitMaskRaw]
     split
     · next hle =>
       have hlt : 2 ^ cnt - 1 < 2 ^ (8 * w) := by
@@ -218,6 +218,30 @@ theorem eval_maskBits (ρ : Env) (e : Expr) (cnt w : Nat) (hw : w ≤ 255) (hc :
         have h4 : 0 < 2 ^ cnt := Nat.two_pow_pos _
         rw [Nat.mod_eq_of_lt h3, trunc_of_lt h3, sub_eq h3 (by omega), if_pos (by omega),
           trunc_of_lt (x := 2 ^ cnt - 1) (by omega), Nat.and_two_pow_sub_one_eq_mod]
+
+theorem bitMaskOk_clamp (cnt w : Nat) : Tools.bitMaskOk (if cnt > 8 * w then 8 * w else cnt) w = true := by
+  simp only [Tools.bitMaskOk, Bool.or_eq_true, decide_eq_true_eq]
+  by_cases h : (if cnt > 8 * w then 8 * w else cnt) > 64
+  · exact Or.inl h
+  · right
+    have hle : (if cnt > 8 * w then 8 * w else cnt) ≤ 8 * w := by split <;> omega
+    have := Nat.pow_le_pow_right (n := 2) (by decide) hle
+    have := Nat.two_pow_pos (if cnt > 8 * w then 8 * w else cnt)
+    omega
+
+/-- `MaskBits` for EVERY bit count (the count is clamped to the width since the F34 repair) -/
+theorem eval_maskBits (ρ : Env) (e : Expr) (cnt w : Nat) (hw : w ≤ 255) :
+    (Tools.maskBits e cnt w).eval ρ = Spec.mask w (e.eval ρ) cnt := by
+  have hle : (if cnt > 8 * w then 8 * w else cnt) ≤ 8 * w := by split <;> omega
+  simp only [Tools.maskBits, Tools.bitMask]
+  rw [eval_maskBitsRaw ρ e _ w hw (by omega) (bitMaskOk_clamp cnt w) (by intro h; subst h; omega)]
+  split
+  · next hgt =>
+    have hx := trunc_lt w (e.eval ρ)
+    have h3 : 2 ^ (8 * w) ≤ 2 ^ cnt := Nat.pow_le_pow_right (by decide) (by omega)
+    simp only [Spec.mask]
+    rw [Nat.mod_eq_of_lt hx, Nat.mod_eq_of_lt (by omega)]
+  · rfl
 
 theorem eval_absMask_sign (ρ : Env) (e : Expr) {w : Nat} (hw : 1 ≤ w) (hw' : w ≤ 255) :
     (Tools.absMask e (Tools.signBitMask w)).eval ρ = Spec.abs w (e.eval ρ) :=
